@@ -146,6 +146,10 @@ func genWorld(r *rng.R, shape string) (*dag.DAG, datamodel.Node, string) {
 	for {
 		var d *dag.DAG
 		switch shape {
+		case "prefix":
+			d = dag.GenPrefix(r)
+		case "empty":
+			d = dag.GenEmptyLeaf(r)
 		case "witness", "skipcount":
 			d = dag.Gen(r, dag.Opts{MaxBlocks: r.Range(4, 9), MaxFanout: 3, Shared: false, Inline: true})
 		default:
@@ -274,6 +278,12 @@ func runE2ECase(w *cw.Writer, ec e2eCase, kind string) error {
 	}
 	if ri.offlineLoads > 0 && ri.wentOnline {
 		tags = append(tags, "verifier_replay")
+	}
+	if ec.Shape == "prefix" {
+		tags = append(tags, "string_prefix_siblings")
+	}
+	if ec.Shape == "empty" {
+		tags = append(tags, "empty_raw_block")
 	}
 	ec.Kind = "e2e"
 	ec.Desc = desc + fmt.Sprintf(" plan-links=%d L=%v R=%v", pl.nodes(), L, R)
